@@ -691,6 +691,17 @@ class Blowout(object):
 
         """
         self.num_oil_elements = num_oil_elements
+        
+        # The phase whose flow rate is reported through q_oil depends on
+        # whether oil droplets are simulated; revisit the choice made in
+        # __init__ and rebuild the oil if it changed
+        if self.num_oil_elements > 0:
+            q_type = 1
+        else:
+            q_type = 0
+        if q_type != self.q_type:
+            self.q_type = q_type
+            self.new_oil = True
         self.update = False
         self.bpm.sim_stored = False
 
